@@ -101,7 +101,9 @@ func (h *harness) opDlex(b []byte, esc rune, how string) {
 	default:
 		written := 0
 		for _, it := range items {
-			written += utf8.RuneCountInString(it.Val)
+			if it.Kind != "Error" { // the value of an Error item is a message, not text of the file
+				written += utf8.RuneCountInString(it.Val)
+			}
 		}
 		last := ""
 		if len(items) > 0 {
